@@ -291,7 +291,9 @@ def option_sets(rng, k):
             {'fill_value': 7, 'fills': {'X': None, 'K': 0}}, {'fill_value': 3, 'fills': {'B': False, 'S': '', 'K': None}},
             # fills that compare (and hash) equal but are different values once written into a text or float variable
             {'fills': {'S': True}}, {'fills': {'S': 1}}, {'fills': {'S': 1.0}}, {'fills': {'S': 0}}, {'fills': {'S': False}}, {'fills': {'S': 0.0, 'X': -0.0}},
-            {'fills': {'X': 0, 'S': -0.0}}, {'fills': {'X': False, 'S': np.float32(1)}}]
+            {'fills': {'X': 0, 'S': -0.0}}, {'fills': {'X': False, 'S': np.float32(1)}},
+            # falsy fills for a model's solution records are fills like any other
+            {'fills': {'status': '', 'iterations': 0}}, {'fills': {'iterations': 0}}, {'fills': {'status': ''}, 'fill_value': 4}]
     return base if k is None else rng.sample(base, k)
 
 
